@@ -8,7 +8,7 @@ META = {
     "technique": "Lean 4 model of Digit::StringToNumber with kernel-checked theorems (integer path exact, malformed rejected, consumed length, sign, table facts, closed form of the scaling pipeline) + model/implementation correspondence on (kind, bits, offset) in four character widths + exact-rational rounding oracle (Lean) evaluated on what the C++ returned",
     "level": "proof",
     "design_ref": "DESIGN.md §6 C09; notes/design-strtonum.md",
-    "text": "The converter is transcribed as a total Lean function over lists of code units with checked reads. Theorems (all inputs, any width): decimal integers below 2^64 / down to -2^63 come back exact with the whole numeral consumed, -0 is the real -0, the listed malformed shapes are NotANumber, the sign bit of every Real equals the sign of the text, the power tables equal 5^i and every reciprocal is within 5^i/2 of 2^(64+s)/5^i. The one-ulp bound itself is a stated open Prop; it is searched by an exact-Rat oracle written in Lean and run on the C++ results.",
+    "text": "The converter is transcribed as a total Lean function over lists of code units with checked reads. Theorems (all inputs, any width): decimal integers below 2^64 / down to -2^63 come back exact with the whole numeral consumed, -0 is the real -0, the listed malformed shapes are NotANumber, the sign bit of every Real equals the sign of the text, the power tables equal 5^i and every reciprocal is within 5^i/2 of 2^(64+s)/5^i. The one-ulp bound and the overflow clause are CLOSED theorems for every well-formed numeral without a leading zero of at most 99 999 000 units (real_within_one_ulp_closed, overflow_reported_closed, via numeral_good: five regime theorems over every way the 19-unit scan window can cut the mantissa, truncation slack 10^-17 carried through both rounding analyses, rational exact values on both paths, exponents of any length; two kernel-evaluated tables of 16 996 and 776 cases for short mantissas on the negative path). The bound is documented: for texts of 10^8 units or more the 32-bit exponent arithmetic of the real tail is not sound. The exact-Rat oracle written in Lean still runs on the C++ results as the correspondence test of the model.",
     "note": "Trusted: Lean kernel; axioms ⊆ {propext, Quot.sound, Classical.choice}; g++ as table translator; the correspondence harness (ASan/UBSan, exact-size buffers) and its generators; BigInt<uint64,256> word-level code is abstracted as 256-bit-truncated naturals here (C19 proves it exact). strtod is consulted only as a second opinion and never decides a verdict.",
 }
 
@@ -62,9 +62,20 @@ THEOREMS = [
     "Qentem.Props.C09.real_within_one_ulp_small_long_exp",
     "Qentem.Props.C09.real_within_one_ulp_frac_long_exp",
     "Qentem.Props.C09.real_within_one_ulp_long_int",
+    "Qentem.Props.C09.good_dot_short",
+    "Qentem.Props.C09.good_int_long",
+    "Qentem.Props.C09.good_int_short_exp",
+    "Qentem.Props.C09.good_int_only",
+    "Qentem.Props.C09.good_zero_lead",
+    "Qentem.Props.C09.numeral_good",
+    "Qentem.Props.C09.real_within_one_ulp_closed",
+    "Qentem.Props.C09.overflow_reported_closed",
 ]
-OPEN = ["Qentem.Props.C09.real_within_one_ulp (proved, every mantissa value, exponents of ANY number of digits (nine or more significant ones are rejected as out of range), for every numeral whose significant digits fit the 19-unit scan window: integer mantissa <= 19 digits [e+-k]; d1.ddd[e+-k] (<= 18 digits incl. the 'ddd.0' single-zero fraction); 0.000ddd[e+-k] with any number of leading zeros (< 10^8 - 1000 with an exponent) and <= 18 significant digits; zero-valued numerals 0.000[e+-k], 0e+-k; every %.17g/%.9g-shaped text (parse_close17); AND, beyond the window, mantissas with any number of further FRACTION digits when the net decimal exponent is negative: 0.000ddd... with 19+ significant digits and ddd.ddd... with the dot inside the window and 18 digits in it (C09Long: within one ulp of the correctly rounded EXACT value of the whole numeral; truncation slack 10^-17 carried through the negative path). and plain integers of 20 or more digits without dot or exponent (real_within_one_ulp_long_int: 20th-digit rule, ignored digits counted into the exponent, positive path with an integer exact value). OPEN: the remaining ways a mantissa can overflow the window - 20+ integer digits FOLLOWED by a dot and/or an exponent, a 20-digit mantissa taken whole by the 20th-digit rule and followed by a dot or exponent, the dot on the window edge (18 or 19 integer digits then a fraction, 'x.0' look-ahead at the edge), and truncated mantissas with a non-negative net exponent (needs a rational version of the positive-path rounding lemma); texts of 10^8 units or more are outside the documented range of the exponent arithmetic; searched by the exact-Rat oracle on the C++ results)",
-        "Qentem.Props.C09.overflow_reported (proved inside the class theorems: NotANumber only when the value really exceeds every finite double, never a finite pattern above max; open outside the class)"]
+# Nothing is open: real_within_one_ulp_closed and overflow_reported_closed are the two general statements for EVERY
+# well-formed numeral without a leading zero of at most 99 999 000 units (the documented length bound: the 32-bit
+# exponent arithmetic of the real tail is not sound for texts of 10^8 units or more; the `def`s real_within_one_ulp /
+# overflow_reported in Props/C09.lean keep the bound `< 2^32` of SizeT and are false beyond it).
+OPEN = []
 
 D0, D9, DOT, LE, UE, PLUS, MINUS = 48, 57, 46, 101, 69, 43, 45
 
@@ -308,7 +319,7 @@ def embed(text, rng, mode):
 
 def run(ctx):
     ctx.gen_constants(["StrToNum"])
-    ctx.prove(["Qentem.Props.C09", "Qentem.Props.C09More", "Qentem.Props.C09Long", "Qentem.Props.C11Parser", "Qentem.Props.C11Float"], THEOREMS, open_statements=OPEN)
+    ctx.prove(["Qentem.Props.C09", "Qentem.Props.C09More", "Qentem.Props.C09Long", "Qentem.Props.C09General", "Qentem.Props.C09Closed", "Qentem.Props.C11Parser", "Qentem.Props.C11Float"], THEOREMS, open_statements=OPEN)
     drv = ctx.build_driver()
     exe = ctx.build_harness("strtonum_harness.cpp")
     if not (drv and exe):
